@@ -44,6 +44,43 @@ def point_only_function():
     return RadialPoint
 
 
+def linear_functional():
+    """a user-defined basis function f(t) = <t, c> written with np.dot(t, c) / t @ c (vector on the right): for a single point it is the inner
+    product; handed a whole d x m data matrix with m == d it would silently return data @ c - a vector of the expected length m with
+    other values.  The documented constructions evaluate snapshot by snapshot."""
+    class LinearFunctional(tr.Function):
+        def __init__(self, c, dimension=None):
+            super(LinearFunctional, self).__init__(dimension)
+            self.c = np.asarray(c, dtype=float)
+
+        def __call__(self, t):
+            return np.dot(t, self.c)
+
+        def partial(self, t, direction):
+            return self.c[direction]
+
+        def partial2(self, t, direction1, direction2):
+            return 0.0
+
+        def gradient(self, t):
+            return self.c.copy()
+
+        def hessian(self, t):
+            return np.zeros((len(self.c), len(self.c)))
+    return LinearFunctional
+
+
+def square_data_with_linear_functionals(rng, bl):
+    """as many snapshots as coordinates (d == m, 3..6) and a basis in which some functions are linear functionals of the state"""
+    d = int(rng.integers(3, 7))
+    X = gen.data_matrix(rng, (d, d))
+    LF = linear_functional()
+    bl = [[LF(rng.standard_normal(d)) if rng.random() < 0.6 else tr.Identity(int(rng.integers(0, d))) for _ in range(int(rng.integers(1, 4)))] for _ in range(int(rng.integers(1, 4)))]
+    if not any(isinstance(f, LF) for fl in bl for f in fl):
+        bl[0][0] = LF(rng.standard_normal(d))
+    return d, d, X, bl
+
+
 def setup(ctx):
     global tr
     arm_light(ctx)
@@ -82,9 +119,10 @@ def array_capable(rng, bl, d):
     repl = {}
     for fl in bl:
         for k, f in enumerate(fl):
-            if type(f).__name__ == 'RadialPoint':
+            if type(f).__name__ in ('RadialPoint', 'LinearFunctional'):
                 if id(f) not in repl:
-                    repl[id(f)] = tr.GaussFunction(int(rng.integers(0, d)), float(rng.uniform(-1, 1)), float(rng.uniform(0.3, 2)))
+                    repl[id(f)] = tr.GaussFunction(int(rng.integers(0, d)), float(rng.uniform(-1, 1)), float(rng.uniform(0.3, 2))) if type(f).__name__ == 'RadialPoint' else \
+                        tr.Identity(int(rng.integers(0, d)))
                 fl[k] = repl[id(f)]
     return bl
 
@@ -111,6 +149,8 @@ def w_basis(ctx, rng, idx):
     d, m = int(rng.integers(1, 4)), int(rng.integers(1, 7))
     x = gen.data_matrix(rng, (d, m))
     bl = rand_basis(rng, d, duplicates=True)
+    if rng.random() < 0.08:
+        d, m, x, bl = square_data_with_linear_functionals(rng, bl)
     ctx.describe({'op': 'basis_decomposition/gram', 'd': d, 'm': m, 'modes': [[type(f).__name__ for f in fl] for fl in bl]})
     call('transform.basis_decomposition', tr.basis_decomposition, x, bl, prop=P)
     for k in range(len(bl)):
